@@ -6,7 +6,7 @@ import vlib
 
 SPEC = "Layers"
 CHUNK_LINES = 100000
-INVS = "TypeOK InvDeliveries InvPrefixLaw InvFilterLaw InvRouterLaw InvFanoutLaw InvCompose InvBuilder InvHandleTargets InvUpdateOnce"
+INVS = "TypeOK InvDeliveries InvPure InvPrefixLaw InvFilterLaw InvRouterLaw InvFanoutLaw InvCompose InvBuilder InvHandleTargets InvUpdateOnce"
 # code points: a A b B . e-acute E-acute
 A, UA, B, UB, DOT, EAC, UEAC = 97, 65, 98, 66, 46, 233, 201
 
@@ -170,7 +170,8 @@ def run(chk):
         "case-insensitive filtering is ASCII-only (AhoCorasickBuilder::ascii_case_insensitive)",
         "route masks are the four the router accepts (COUNTER, GAUGE, HISTOGRAM, ALL); add_route panics on any other mask",
         "Histogram::record_many(v, n) through a fanout is compared at sample level (n x record(v) per inner handle)",
-        "single-threaded calls; recorder trees (no recorder shared between two branches)",
+        "recorder trees (no recorder shared between two branches); the sequential programs call from one thread, the hammer "
+        "stage from 8 threads and only asserts quiescent totals (no interleaving is assumed)",
         "re-usable builders are FilterLayer and PrefixLayer (layer(&self)); RouterBuilder::build, FanoutBuilder::add_recorder/"
         "build and Stack::push consume self, so no call can follow the product (enforced by the compiler)",
     ]
@@ -190,6 +191,23 @@ def run(chk):
     if r["invariant"] != "InvBuilder":
         chk.tool_error("model no longer rejects a stale case flag in FilterLayer (witness lost)", r["out"][-2000:])
     chk.notes["stale_case_witness"] = "StaleCaseFlag=TRUE violates InvBuilder (history: new, layer, case_insensitive, layer)"
+
+    # concurrency counter-model: one call must never be decided by another call's key.  The pure filter passes; a filter
+    # that memoises its last decision in two separately written cells (FilterMemoTwoCells) must be rejected.
+    def memo_cfg(name, two):
+        p = os.path.join(vlib.SPECS, SPEC, "gen_%s.cfg" % name)
+        with open(p, "w") as f:
+            f.write('SPECIFICATION Spec\nCONSTANTS\n Callers = {1, 2}\n Keys = {"A", "B"}\n DropKeys = {"A"}\n NCalls = %d\n'
+                    ' FilterMemoTwoCells = %s\nINVARIANTS TypeOK OwnKey\nCHECK_DEADLOCK FALSE\n' % (3 if thorough else 2, two))
+        return os.path.basename(p)
+    r = vlib.tlc_mc(SPEC, "FilterMemo", memo_cfg("memo_pure", "FALSE"), workers=4, timeout=600, tag="memo_pure")
+    memo_only = {"DoLdState", "DoLdHash", "DoStEmpty", "DoStHash", "DoStState", "LdState", "LdHash", "StEmpty", "StHash", "StState"}
+    if not chk.expect_mc_ok(r, "FilterMemo/pure", vacuity_exempt=memo_only):
+        return
+    r = vlib.tlc_mc(SPEC, "FilterMemo", memo_cfg("memo_witness", "TRUE"), workers=4, timeout=600, coverage=False, tag="memo_witness")
+    if r["invariant"] != "OwnKey":
+        chk.tool_error("concurrent model no longer rejects the two-cell decision memo (witness lost)", r["out"][-2000:])
+    chk.notes["memo_witness"] = "FilterMemoTwoCells=TRUE violates OwnKey at depth %d" % r["depth"]
 
     # 2. harness against /repo's working tree
     build(chk)
@@ -226,11 +244,19 @@ def run(chk):
     with open(chk.path("record.ndjson")) as f:
         head = [json.loads(next(f)) for _ in range(3)]
     chk.cov["samples"].append({"source": "recorded random run (first events)", "events": head})
+    # 5. real-parallel: 8 threads through ONE shared layer tree per layer kind, totals judged by TLC (HammerOK) with the
+    #    same delivery function; sound for every interleaving because deliveries are a pure function of the call (InvPure)
+    summ3 = run_and_validate(chk, ["hammer", "--runs", 6 if thorough else 2, "--threads", 8, "--calls", 200000 if thorough else 150000],
+                             chk.path("hammer.ndjson"), "real-parallel calls through one shared layer")
+    chk.notes["hammer"] = summ3
+    chk.log("hammer: %d runs, %d calls, %.1fs in the layers" % (summ3.get("runs", 0), summ3.get("calls", 0), summ3.get("secs", 0)))
     chk.cov["rule"] = ("exhaustive TLC: every configuration x every describe/register (x every update) of each scope, "
                        "mirror-of-code deliveries == law deliveries; conformance: every TLC-exported program and every seeded "
                        "random program executed on the real layers, deliveries recomputed by TLC per call and compared as bags; "
                        "distinct_nontrivial = distinct (configuration, call) pairs whose outcome is not a plain pass-through "
-                       "to the default recorder (dropped / renamed / routed / fanned out), counted by the harness")
+                       "to the default recorder (dropped / renamed / routed / fanned out), counted by the harness; "
+                       "hammer: per layer kind 8 real threads x 150-200k calls through one shared instance, per-(thread,key) "
+                       "totals compared by TLC with the summed per-call deliveries")
 
 
 def replay(chk, path):
@@ -242,6 +268,10 @@ def replay(chk, path):
     progs = []
     for line in open(path):
         e = json.loads(line)
+        if e.get("ev") == "hammer":      # a real-parallel run: run that layer kind again
+            run_and_validate(chk, ["hammer", "--runs", 6, "--threads", 8, "--calls", 200000, "--only", e["layer"]],
+                             chk.path("hammer_again.ndjson"), "replay (hammer) " + path)
+            return
         if e.get("ev") == "reset":
             prog = {"hist": [], "ops": []} if e["cfg"].get("t") == "none" else {"cfg": e["cfg"], "ops": []}
             progs.append(prog)
